@@ -404,6 +404,8 @@ def run_check(pid, tier="quick", seed=0, replay=None, out=sys.stdout):
             "mechanism_reach": mech_reach,
             "library_functions_entered": len(total_reach),
             "known_findings_hit": dict(known_hit),
+            "slowest_cases": [{"cid": r_["cid"], "wall_s": r_.get("wall_s"), "class": r_.get("cls")}
+                              for r_ in sorted(results, key=lambda z: -(z.get("wall_s") or 0))[:3]],
             "inconclusive_cases": len(inconcl),
             "inconclusive_reasons": [x[1][:200] for x in inconcl[:3]],
             "verdict": "violated" if unlisted else ("inconclusive" if reasons else "held on what was observed"),
